@@ -1752,6 +1752,52 @@ const SPECS: &[Spec] = &[
         tail: None,
         note: "the serde skip predicate of `ResourceClass::certificates` (seed C06 round 1 dropped the `suspended` half).",
     },
+    Spec {
+        id: "C03",
+        file: "src/server/ca/keys.rs",
+        ty: "KeyState",
+        method: "revoke",
+        lean: "KeyState.revoke",
+        sig: "&self,class_name:ResourceClassName,signer:&KrillSigner->KrillResult<Vec<RevocationRequest>>",
+        binders: "{K Q ε : Type} (revoke_key : K → Except ε Q) (self_state : KeyState) (current_key new_key : K) (old_revoke_req : Q)",
+        args: "revoke_key self_state current_key new_key old_revoke_req",
+        ret: "Except ε (List Q)",
+        num: Num::Nat,
+        names: &[
+            ("self", "self_state"),
+            ("Ok(vec![])", "(Except.ok [])"),
+            (
+                "Ok(vec![Self::revoke_key(class_name,current.key_id,signer)?,])",
+                "(match revoke_key current_key with | Except.error e => Except.error e | Except.ok q => Except.ok [q])",
+            ),
+            (
+                "Ok(vec![Self::revoke_key(class_name.clone(),new.key_id,signer,)?,Self::revoke_key(class_name,current.key_id,signer)?,])",
+                "(match revoke_key new_key with | Except.error e => Except.error e | Except.ok q1 => match revoke_key current_key with | Except.error e => Except.error e | Except.ok q2 => Except.ok [q1, q2])",
+            ),
+            (
+                "Ok(vec![Self::revoke_key(class_name,current.key_id,signer)?,old.revoke_req.clone()])",
+                "(match revoke_key current_key with | Except.error e => Except.error e | Except.ok q => Except.ok [q, old_revoke_req])",
+            ),
+        ],
+        methods: &[],
+        state_ty: &[],
+        elem_ty: "",
+        enums: &[("KeyState", "src/server/ca/keys.rs", "")],
+        structs: &[],
+        types: &[],
+        opaque_lets: &[],
+        effects: &[],
+        wrapper: None,
+        cond_effects: &[],
+        self_fields: &[],
+        mut_params: &[],
+        extern_enums: &[],
+        tail: None,
+        note: "the payload of `KeyState` is flattened into the key identifiers of the current and the new key and the stored \
+               revocation request of the old key; `Self::revoke_key(class, k, signer)` (a revocation request for `k`, or the \
+               signer's error) is the parameter `revoke_key`; each arm's `Ok(vec![ … ?, … ])` is mapped as a whole (verbatim) \
+               to the sequence of its `?`s; WHICH arm a variant takes is translated.",
+    },
 ];
 
 type R = Result<String, String>;
